@@ -55,7 +55,7 @@ func c09Node(t *rapid.T, depth int, budget *int) string {
 		attrs += ` style="` + strings.Join(st, ";") + `"`
 	}
 	if rapid.IntRange(0, 4).Draw(t, "span") == 0 {
-		attrs += fmt.Sprintf(` %s="%s"`, rapid.SampledFrom([]string{"colspan", "rowspan", "span", "rowspan"}).Draw(t, "sa"), rapid.SampledFrom([]string{"0", "1", "2", "3", "9", "-1", "x", "70000"}).Draw(t, "sv"))
+		attrs += fmt.Sprintf(` %s="%s"`, rapid.SampledFrom([]string{"colspan", "rowspan", "span", "rowspan"}).Draw(t, "sa"), rapid.SampledFrom([]string{"0", "1", "2", "3", "9", "-1", "x", "70000", "010", "0x3", "0b11", "1_0"}).Draw(t, "sv"))
 	}
 	switch tag {
 	case "img":
@@ -91,7 +91,7 @@ func c09Table(t *rapid.T) string {
 		if rapid.IntRange(0, 2).Draw(t, "hasspan") != 0 {
 			return ""
 		}
-		return fmt.Sprintf(` %s="%s"`, attr, rapid.SampledFrom([]string{"0", "2", "2", "3", "3", "4", "9", "1"}).Draw(t, "spanv"))
+		return fmt.Sprintf(` %s="%s"`, attr, rapid.SampledFrom([]string{"0", "2", "2", "3", "3", "4", "9", "1", "03", "0012", " 2 ", "+2", "0x3", "0b11", "0o2", "1_0", "2.0", "3e0"}).Draw(t, "spanv"))
 	}
 	tableTag := rapid.SampledFrom([]string{"table", "table", "table", `div style="display:table"`, `span style="display:inline-table"`, `table style="display:inline-table"`}).Draw(t, "ttag")
 	b.WriteString("<" + tableTag + ">")
